@@ -93,26 +93,32 @@ def run_case(E, op, build, mode="dispatch"):
             res = ("value", call_aten(E2, AtenOp(op), list(args), dict(kwargs)))
         except RaiseEx as r:
             res = ("raises", r.exc)
+        # dequantize the results inside the explored program (dequantize may branch, e.g. ungroup's shape test)
+        if res[0] == "value":
+            try:
+                h.res_deq = deq(E2, res[1])
+            except RaiseEx as r:
+                h.res_deq = ("deq-raises", r.exc)
         return h, args, kwargs, ref, res
 
     return Builtin(f"case:{op}", prog)
 
 
-def compare(run, E, r, prefix, tag, inst, res, ref, rel, rp, hyps_extra=(), level="property"):
+def compare(run, E, r, prefix, tag, inst, res, ref, rel, rp, hyps_extra=(), level="property", dq=None):
     """Element-wise relation between the (dequantized) result and the reference, at a symbolic index."""
     if isinstance(res, (list, tuple)) and isinstance(ref, (list, tuple)):
         if len(res) != len(ref):
             run.add(f"{prefix}/same-number-of-results[{tag}]", r.hyps, z3.BoolVal(False), level, inst, replay=rp)
             return
         for k, (a, b) in enumerate(zip(res, ref)):
-            compare(run, E, r, prefix, f"{tag}/out{k}", inst, a, b, rel, rp, hyps_extra, level)
+            compare(run, E, r, prefix, f"{tag}/out{k}", inst, a, b, rel, rp, hyps_extra, level, dq[k] if isinstance(dq, (list, tuple)) else None)
         return
     if not isinstance(ref, STensor):
         # python value (bool from is_same_size ...)
         eq = E.eq(res, ref)
         run.add(f"{prefix}/value[{tag}]", r.hyps + list(hyps_extra), eq if not isinstance(eq, bool) else z3.BoolVal(eq), level, inst, replay=rp)
         return
-    val = deq(E, res) if is_wrapper(res) else res
+    val = (dq if dq is not None else deq(E, res)) if is_wrapper(res) else res
     if not isinstance(val, STensor):
         run.add(f"{prefix}/returns-a-tensor[{tag}]", r.hyps, z3.BoolVal(False), level, inst, replay=rp)
         return
